@@ -1,4 +1,420 @@
+import Cpl.Spec.Torus
 import Cpl.Model.Rules
+import Cpl.Properties.C02
+import Cpl.Properties.C04
+import Cpl.Lemmas.Sandpile
+
+/-!
+# C14 — Sandpile is the BTW toppling rule; grains are conserved
+
+`Sandpile` realises the Bak-Tang-Wiesenfeld parallel toppling rule with threshold 4: a cell holding at
+least four grains loses four and every cell gains one grain per toppling von Neumann neighbour. On the
+periodic (open) grid the total number of grains is the same at every step; with the closed boundary the
+boundary cells are held at 0 and the total never increases; configurations with all cells below 4 are
+fixed points, and a scheduled `add_grain` on such a configuration raises exactly that cell by one at
+that step.
+
+All grid shapes `R × C ≥ 1 × 1` (on `1 × N` and `2 × N` tori neighbours coincide and are counted as
+often as they occur), every step number `t`, both boundary modes, every grain schedule.
+`cfg.K = 4` is the library's threshold; `cfg.rows`, `cfg.cols` are the grid's shape (only the closed
+boundary looks at them).
+-/
+
 namespace Cpl.C14
-theorem placeholder : True := trivial
+open Cpl Cpl.Spec
+
+/-! ## Vocabulary -/
+
+/-- `g[i][j]`. -/
+def cell (g : Grid Int) (i j : Nat) : Int := (g[i]!)[j]!
+
+/-- Total number of grains on the grid. -/
+def total (g : Grid Int) : Int := (g.map List.sum).sum
+
+/-- 1 if a cell holding `x` grains topples (`x ≥ 4`), else 0. -/
+def topples (x : Int) : Int := if 4 ≤ x then 1 else 0
+
+/-- **The BTW update of one cell of the `R × C` torus**: a toppling cell loses four grains and gains one
+    grain per toppling neighbour above, below, left and right (indices modulo `R`, `C`). -/
+def btwCell (R C : Nat) (g : Grid Int) (i j : Nat) : Int :=
+  cell g i j - 4 * topples (cell g i j)
+    + topples (cell g ((i + R - 1) % R) j) + topples (cell g ((i + 1) % R) j)
+    + topples (cell g i ((j + C - 1) % C)) + topples (cell g i ((j + 1) % C))
+
+/-- The BTW parallel toppling step of the whole torus. -/
+def btwStep (R C : Nat) (g : Grid Int) : Grid Int :=
+  (List.range R).map fun i => (List.range C).map fun j => btwCell R C g i j
+
+/-- `(i, j)` lies on the boundary of the `R × C` grid. -/
+def onRim (R C i j : Nat) : Prop := i = 0 ∨ i = R - 1 ∨ j = 0 ∨ j = C - 1
+
+instance (R C i j : Nat) : Decidable (onRim R C i j) := by unfold onRim; infer_instance
+
+/-- The BTW step with the boundary cells held at 0 (grains toppling onto the boundary are lost). -/
+def closedStep (R C : Nat) (g : Grid Int) : Grid Int :=
+  (List.range R).map fun i => (List.range C).map fun j => if onRim R C i j then 0 else btwCell R C g i j
+
+/-- No `add_grain` is scheduled for step `t`. -/
+def NoGrainAt (cfg : SandpileCfg) (t : Nat) : Prop := ∀ gr ∈ cfg.grains, gr.2 ≠ t
+
+/-- The grids after `1, …, k` BTW steps. -/
+def btwRun (R C : Nat) : Nat → Grid Int → List (Grid Int)
+  | 0, _ => []
+  | k + 1, g => btwStep R C g :: btwRun R C k (btwStep R C g)
+
+/-- The grids after `1, …, k` closed-boundary steps. -/
+def closedRun (R C : Nat) : Nat → Grid Int → List (Grid Int)
+  | 0, _ => []
+  | k + 1, g => closedStep R C g :: closedRun R C k (closedStep R C g)
+
+/-- All boundary cells hold 0. -/
+def RimZero (R C : Nat) (g : Grid Int) : Prop := ∀ i j, i < R → j < C → onRim R C i j → cell g i j = 0
+
+/-- The step written with the helper library's cell update (same formula). -/
+theorem btwStep_eq (R C : Nat) (g : Grid Int) : btwStep R C g = Sandpile.btwGrid R C g := rfl
+
+/-- The closed step written with the helper library's cell update (same formula). -/
+theorem closedStep_eq (R C : Nat) (g : Grid Int) : closedStep R C g = Sandpile.closedGrid R C g := rfl
+
+/-- A BTW step yields an `R × C` grid. -/
+theorem btwStep_rect (R C : Nat) (g : Grid Int) : Rect (btwStep R C g) R C := Life.tabulate_rect R C _
+
+/-! ## 1. Open boundary: the BTW rule -/
+
+/-- **One step of the model with the open (periodic) boundary is the BTW step**, for every `R × C`
+    grid, `R, C ≥ 1`, at every step `t` for which no grain is scheduled. -/
+theorem sandpile_btw (cfg : SandpileCfg) (hK : cfg.K = 4) (hopen : cfg.closed = false) (g : Grid Int)
+    (R C : Nat) (hg : Rect g R C) (hR : 1 ≤ R) (hC : 1 ≤ C) (t : Nat) (hng : NoGrainAt cfg t)
+    (cs : Caches2 Int) :
+    (Cpl.step2 .plain (sandpileRule2 cfg) 1 true g t cs ()).1 = btwStep R C g := by
+  rw [Sandpile.step_eq cfg hK g R C hg hR hC t cs, btwStep_eq]
+  exact Sandpile.newGrid_open cfg hopen R C g t hng
+
+/-- Read cell by cell: the new value of `(i, j)` is its old value, minus four if it topples, plus one
+    for each of the four neighbours `(i∓1, j)`, `(i, j∓1)` (modulo `R`, `C`) that topples. On a `1 × N`
+    torus `(i-1, j)` and `(i+1, j)` are the cell itself, which is then counted twice. -/
+theorem sandpile_btw_cell (cfg : SandpileCfg) (hK : cfg.K = 4) (hopen : cfg.closed = false) (g : Grid Int)
+    (R C : Nat) (hg : Rect g R C) (hR : 1 ≤ R) (hC : 1 ≤ C) (t : Nat) (hng : NoGrainAt cfg t)
+    (cs : Caches2 Int) (i j : Nat) (hi : i < R) (hj : j < C) :
+    cell (Cpl.step2 .plain (sandpileRule2 cfg) 1 true g t cs ()).1 i j
+      = cell g i j - 4 * topples (cell g i j)
+        + topples (cell g ((i + R - 1) % R) j) + topples (cell g ((i + 1) % R) j)
+        + topples (cell g i ((j + C - 1) % C)) + topples (cell g i ((j + 1) % C)) := by
+  rw [sandpile_btw cfg hK hopen g R C hg hR hC t hng cs]
+  exact Life.cell_tabulate R C _ hi hj
+
+/-! ## 2. Open boundary: conservation -/
+
+/-- The BTW step of the torus conserves the total, for every shape including `1 × N`, `2 × N`, `1 × 1`. -/
+theorem btwStep_total (R C : Nat) (g : Grid Int) (hg : Rect g R C) : total (btwStep R C g) = total g := by
+  show Sandpile.total (btwStep R C g) = Sandpile.total g
+  rw [btwStep_eq, Sandpile.btwGrid, Sandpile.total_btw, Sandpile.total_rect hg]
+
+/-- **Grains are conserved on the periodic grid**: the total after a step of the model equals the total
+    before, for every grid shape `R × C ≥ 1 × 1` and arbitrary integer cell contents. -/
+theorem sandpile_conserves (cfg : SandpileCfg) (hK : cfg.K = 4) (hopen : cfg.closed = false) (g : Grid Int)
+    (R C : Nat) (hg : Rect g R C) (hR : 1 ≤ R) (hC : 1 ≤ C) (t : Nat) (hng : NoGrainAt cfg t)
+    (cs : Caches2 Int) :
+    total (Cpl.step2 .plain (sandpileRule2 cfg) 1 true g t cs ()).1 = total g := by
+  rw [sandpile_btw cfg hK hopen g R C hg hR hC t hng cs, btwStep_total R C g hg]
+
+/-! ## 3. Closed boundary -/
+
+/-- With the closed boundary a step without scheduled grain is the BTW step with the rim held at 0. -/
+theorem sandpile_closed_step (cfg : SandpileCfg) (hK : cfg.K = 4) (R C : Nat) (hrows : cfg.rows = R)
+    (hcols : cfg.cols = C) (hcl : cfg.closed = true) (g : Grid Int) (hg : Rect g R C) (hR : 1 ≤ R) (hC : 1 ≤ C)
+    (t : Nat) (hng : NoGrainAt cfg t) (cs : Caches2 Int) :
+    (Cpl.step2 .plain (sandpileRule2 cfg) 1 true g t cs ()).1 = closedStep R C g := by
+  rw [Sandpile.step_eq cfg hK g R C hg hR hC t cs, closedStep_eq]
+  exact Sandpile.newGrid_closed cfg hcl R C hrows hcols g t hng
+
+/-- **Closed boundary**: after every step (grains scheduled or not) the boundary cells hold 0; and if
+    the boundary cells held 0 before and no grain is scheduled, the total does not increase. -/
+theorem sandpile_closed (cfg : SandpileCfg) (hK : cfg.K = 4) (R C : Nat) (hrows : cfg.rows = R)
+    (hcols : cfg.cols = C) (hcl : cfg.closed = true) (g : Grid Int) (hg : Rect g R C) (hR : 1 ≤ R) (hC : 1 ≤ C) (t : Nat)
+    (cs : Caches2 Int) :
+    (∀ i j, i < R → j < C → onRim R C i j →
+      cell (Cpl.step2 .plain (sandpileRule2 cfg) 1 true g t cs ()).1 i j = 0) ∧
+    (NoGrainAt cfg t → RimZero R C g →
+      total (Cpl.step2 .plain (sandpileRule2 cfg) 1 true g t cs ()).1 ≤ total g) := by
+  rw [Sandpile.step_eq cfg hK g R C hg hR hC t cs]
+  simp only
+  constructor
+  · intro i j hi hj hrim
+    show Life.cell _ i j = 0
+    rw [Life.cell_tabulate R C _ hi hj]
+    exact Sandpile.newCell_rim cfg hcl R C g t i j (by rw [hrows, hcols]; exact hrim)
+  · intro hng hrim0
+    show Sandpile.total _ ≤ Sandpile.total g
+    rw [Sandpile.total_rect hg]
+    exact Sandpile.total_new_le cfg R C g t (by rw [hrows, hcols]; exact hrim0) hng
+
+/-! ## 4. Stable configurations are fixed points -/
+
+/-- **Stable configurations are fixed points**: if every cell holds fewer than four grains (and, with the
+    closed boundary, the boundary cells hold 0) and no grain is scheduled for step `t`, the step returns
+    the grid unchanged — both boundary modes. -/
+theorem stable_fixed (cfg : SandpileCfg) (hK : cfg.K = 4) (g : Grid Int) (R C : Nat) (hg : Rect g R C)
+    (hR : 1 ≤ R) (hC : 1 ≤ C) (t : Nat) (hng : NoGrainAt cfg t) (cs : Caches2 Int)
+    (hstable : ∀ i j, i < R → j < C → cell g i j < 4)
+    (hclosed : cfg.closed = true →
+      cfg.rows = R ∧ cfg.cols = C ∧ RimZero R C g) :
+    (Cpl.step2 .plain (sandpileRule2 cfg) 1 true g t cs ()).1 = g := by
+  rw [Sandpile.step_eq cfg hK g R C hg hR hC t cs]
+  simp only
+  refine Eq.trans ?_ (Sandpile.tab_cell hg)
+  apply List.map_congr_left
+  intro i hi
+  apply List.map_congr_left
+  intro j hj
+  have hi : i < R := by simpa using hi
+  have hj : j < C := by simpa using hj
+  by_cases hrim : cfg.closed = true ∧ Sandpile.onRim cfg.rows cfg.cols i j
+  · obtain ⟨hr, hc, h0⟩ := hclosed hrim.1
+    rw [Sandpile.newCell_rim cfg hrim.1 R C g t i j hrim.2]
+    exact (h0 i j hi hj (by have := hrim.2; rw [hr, hc] at this; exact this)).symm
+  · have : Sandpile.newCell cfg R C g t i j = Sandpile.btwCell R C g i j := by
+      unfold Sandpile.newCell
+      rw [if_neg hrim, if_neg (by rintro ⟨gr, hm, h1, _⟩; exact hng gr hm h1)]
+    rw [this]
+    exact Sandpile.btwCell_stable R C g hstable i j hi hj
+
+/-! ## 5. A scheduled grain on a stable configuration -/
+
+/-- **`add_grain` on a stable configuration**: if every cell holds fewer than four grains and the grains
+    scheduled for step `t` are exactly those for cell `(i0, j0)` (with the closed boundary: a non-boundary
+    cell, boundary cells holding 0), the step raises exactly that cell by one. -/
+theorem add_grain_stable (cfg : SandpileCfg) (hK : cfg.K = 4) (g : Grid Int) (R C : Nat) (hg : Rect g R C)
+    (hR : 1 ≤ R) (hC : 1 ≤ C) (t : Nat) (cs : Caches2 Int) (i0 j0 : Nat)
+    (hsched : ((i0, j0), t) ∈ cfg.grains) (honly : ∀ gr ∈ cfg.grains, gr.2 = t → gr.1 = (i0, j0))
+    (hstable : ∀ i j, i < R → j < C → cell g i j < 4)
+    (hclosed : cfg.closed = true →
+      cfg.rows = R ∧ cfg.cols = C ∧ ¬ onRim R C i0 j0 ∧ RimZero R C g) :
+    (Cpl.step2 .plain (sandpileRule2 cfg) 1 true g t cs ()).1
+      = (List.range R).map fun i => (List.range C).map fun j =>
+          if (i, j) = (i0, j0) then cell g i j + 1 else cell g i j := by
+  rw [Sandpile.step_eq cfg hK g R C hg hR hC t cs]
+  simp only
+  apply List.map_congr_left
+  intro i hi
+  apply List.map_congr_left
+  intro j hj
+  have hi : i < R := by simpa using hi
+  have hj : j < C := by simpa using hj
+  by_cases hij : (i, j) = (i0, j0)
+  · rw [if_pos hij]
+    obtain ⟨rfl, rfl⟩ := Prod.mk.inj hij
+    exact Sandpile.newCell_grain cfg R C g t i j
+      (fun hcl => by obtain ⟨hr, hc, hnr, _⟩ := hclosed hcl; rw [hr, hc]; exact hnr) hsched
+  · rw [if_neg hij]
+    by_cases hrim : cfg.closed = true ∧ Sandpile.onRim cfg.rows cfg.cols i j
+    · obtain ⟨hr, hc, _, h0⟩ := hclosed hrim.1
+      rw [Sandpile.newCell_rim cfg hrim.1 R C g t i j hrim.2]
+      exact (h0 i j hi hj (by have := hrim.2; rw [hr, hc] at this; exact this)).symm
+    · have : Sandpile.newCell cfg R C g t i j = Sandpile.btwCell R C g i j := by
+        unfold Sandpile.newCell
+        rw [if_neg hrim, if_neg (by
+          rintro ⟨gr, hm, h1, h2⟩
+          exact hij (by rw [← h2]; exact honly gr hm h1))]
+      rw [this]
+      exact Sandpile.btwCell_stable R C g hstable i j hi hj
+
+/-! ## 6. Along an evolution -/
+
+/-- The specification run of the open sandpile is the iterated BTW step (no grain scheduled in the
+    steps `t … t+k-1`). -/
+theorem run2_sandpile_open (cfg : SandpileCfg) (hK : cfg.K = 4) (hopen : cfg.closed = false) (R C : Nat) :
+    ∀ (k t : Nat) (g : Grid Int), (∀ gr ∈ cfg.grains, ¬ (t ≤ gr.2 ∧ gr.2 < t + k)) →
+      run2 (sandpileRule2 cfg) R C 1 true k t g () = (btwRun R C k g, ())
+  | 0, _, _, _ => rfl
+  | k + 1, t, g, hng => by
+    simp only [run2, btwRun]
+    rw [Sandpile.specStep_eq cfg hK g R C t]
+    simp only
+    rw [Sandpile.newGrid_open cfg hopen R C g t (fun gr hm h => hng gr hm (by omega)), ← btwStep_eq,
+      run2_sandpile_open cfg hK hopen R C k (t + 1) _ (fun gr hm h => hng gr hm (by omega))]
+
+/-- Every grid of a BTW run is `R × C` and has the total of the start grid. -/
+theorem btwRun_total (R C : Nat) :
+    ∀ (k : Nat) (g : Grid Int), Rect g R C → ∀ g' ∈ btwRun R C k g, Rect g' R C ∧ total g' = total g
+  | 0, _, _, _, h => by simp [btwRun] at h
+  | k + 1, g, hg, g', h => by
+    simp only [btwRun, List.mem_cons] at h
+    rcases h with rfl | h
+    · exact ⟨btwStep_rect R C g, btwStep_total R C g hg⟩
+    · have := btwRun_total R C k _ (btwStep_rect R C g) g' h
+      exact ⟨this.1, this.2.trans (btwStep_total R C g hg)⟩
+
+/-- One grid per step. -/
+theorem btwRun_length (R C : Nat) : ∀ (k : Nat) (g : Grid Int), (btwRun R C k g).length = k
+  | 0, _ => rfl
+  | k + 1, g => by simp only [btwRun, List.length_cons]; rw [btwRun_length R C k]
+
+/-- `evolve2d` (von Neumann, `r = 1`, memoization off) with the open sandpile and no grain scheduled for
+    the steps `1 … T-1` it takes returns the history followed by the iterated BTW steps. -/
+theorem sandpile_evolve_btw (cfg : SandpileCfg) (hK : cfg.K = 4) (hopen : cfg.closed = false)
+    (hist : List (Grid Int)) (init : Grid Int) (hlast : hist.getLast? = some init) (T : Nat) (hT : 1 ≤ T)
+    (R C : Nat) (hg : Rect init R C) (hR : 1 ≤ R) (hC : 1 ≤ C)
+    (hng : ∀ gr ∈ cfg.grains, ¬ (1 ≤ gr.2 ∧ gr.2 < T)) :
+    evolve2dFixed hist T (sandpileRule2 cfg) 1 .vonNeumann .plain ()
+      = .ok (hist ++ btwRun R C (T - 1) init, ()) := by
+  rw [C02.evolve2dFixed_plain_eq_spec hist init hlast T hT (sandpileRule2 cfg) R C 1 .vonNeumann (by decide)
+    hg hR hC hR hC ()]
+  rw [show decide (NbType.vonNeumann = NbType.vonNeumann) = true by decide,
+    run2_sandpile_open cfg hK hopen R C (T - 1) 1 init (fun gr hm h => hng gr hm (by omega))]
+
+/-- **Grains are conserved along the whole evolution** on the periodic grid: every grid `evolve2d`
+    appends to the history has the total of the initial grid. -/
+theorem sandpile_evolve_conserves (cfg : SandpileCfg) (hK : cfg.K = 4) (hopen : cfg.closed = false)
+    (hist : List (Grid Int)) (init : Grid Int) (hlast : hist.getLast? = some init) (T : Nat) (hT : 1 ≤ T)
+    (R C : Nat) (hg : Rect init R C) (hR : 1 ≤ R) (hC : 1 ≤ C)
+    (hng : ∀ gr ∈ cfg.grains, ¬ (1 ≤ gr.2 ∧ gr.2 < T)) :
+    ∃ gs, evolve2dFixed hist T (sandpileRule2 cfg) 1 .vonNeumann .plain () = .ok (hist ++ gs, ()) ∧
+      gs.length = T - 1 ∧ ∀ g' ∈ gs, Rect g' R C ∧ total g' = total init := by
+  refine ⟨btwRun R C (T - 1) init, sandpile_evolve_btw cfg hK hopen hist init hlast T hT R C hg hR hC hng, ?_,
+    btwRun_total R C (T - 1) init hg⟩
+  exact btwRun_length R C (T - 1) init
+
+/-- With the open boundary and an empty grain schedule the rule is a function of the neighbourhood
+    alone, and its pure torus run is the BTW run. -/
+theorem pureRun2_sandpile_open (cfg : SandpileCfg) (hK : cfg.K = 4) (hopen : cfg.closed = false)
+    (hgr : cfg.grains = []) (R C : Nat) :
+    ∀ (k : Nat) (g : Grid Int),
+      pureRun2 (fun n => sandpileRule cfg n (0, 0) 0) R C 1 true k g = btwRun R C k g
+  | 0, _ => rfl
+  | k + 1, g => by
+    have hstep : pureStep2 (fun n => sandpileRule cfg n (0, 0) 0) R C 1 true g = btwStep R C g := by
+      unfold pureStep2
+      rw [btwStep_eq]
+      apply List.map_congr_left
+      intro i hi
+      apply List.map_congr_left
+      intro j hj
+      rw [Sandpile.nbhd_vn1 g R C i j (by simpa using hi) (by simpa using hj)]
+      show sandpileRule cfg _ (0, 0) 0 = _
+      rw [Sandpile.rule_explicit cfg hK, if_neg (by simp [hopen]), if_neg (by simp [hgr])]
+      rfl
+    simp only [pureRun2, btwRun]
+    rw [hstep, pureRun2_sandpile_open cfg hK hopen hgr R C k]
+
+/-- The same with memoization (`True` or `'recursive'`): with the open boundary and an empty grain
+    schedule the rule depends on the neighbourhood only, and every mode yields the BTW run. -/
+theorem sandpile_evolve_btw_anymode (cfg : SandpileCfg) (hK : cfg.K = 4) (hopen : cfg.closed = false)
+    (hgr : cfg.grains = []) (mode : Mode) (hm : mode ≠ .bad)
+    (hist : List (Grid Int)) (init : Grid Int) (hlast : hist.getLast? = some init) (T : Nat) (hT : 1 ≤ T)
+    (R C : Nat) (hg : Rect init R C) (hR : 1 ≤ R) (hC : 1 ≤ C) :
+    evolve2dFixed hist T (sandpileRule2 cfg) 1 .vonNeumann mode ()
+      = .ok (hist ++ btwRun R C (T - 1) init, ()) := by
+  have hp : PureVal2 (sandpileRule2 cfg) (fun n => sandpileRule cfg n (0, 0) 0) := by
+    intro s n c t
+    show sandpileRule cfg n c t = sandpileRule cfg n (0, 0) 0
+    unfold sandpileRule
+    simp [hopen, hgr]
+  have key := C04.evolve2dFixed_grids_pure (sandpileRule2 cfg) _ hp mode hm hist init hlast T hT R C 1
+    .vonNeumann (by decide) hg hR hC hR hC ()
+  rw [show decide (NbType.vonNeumann = NbType.vonNeumann) = true by decide,
+    pureRun2_sandpile_open cfg hK hopen hgr R C (T - 1) init] at key
+  cases hx : evolve2dFixed hist T (sandpileRule2 cfg) 1 .vonNeumann mode () with
+  | error e => rw [hx] at key; cases key
+  | ok v =>
+    rw [hx] at key
+    obtain ⟨gs, u⟩ := v
+    cases u
+    simp only [Except.map, Except.ok.injEq] at key
+    rw [key]
+
+/-! ## 7. Closed boundary along an evolution -/
+
+/-- A closed step keeps the shape, leaves the boundary cells at 0 and does not increase the total. -/
+theorem closedStep_invariant (R C : Nat) (g : Grid Int) (hg : Rect g R C) (h0 : RimZero R C g) :
+    Rect (closedStep R C g) R C ∧ RimZero R C (closedStep R C g) ∧ total (closedStep R C g) ≤ total g :=
+  ⟨Life.tabulate_rect R C _, fun i j hi hj hrim => Sandpile.closedGrid_rim R C g i j hi hj hrim,
+    Sandpile.closedGrid_total_le R C g hg h0⟩
+
+/-- The specification run of the closed sandpile is the iterated closed step (no grain scheduled in
+    the steps `t … t+k-1`). -/
+theorem run2_sandpile_closed (cfg : SandpileCfg) (hK : cfg.K = 4) (R C : Nat) (hrows : cfg.rows = R)
+    (hcols : cfg.cols = C) (hcl : cfg.closed = true) :
+    ∀ (k t : Nat) (g : Grid Int), (∀ gr ∈ cfg.grains, ¬ (t ≤ gr.2 ∧ gr.2 < t + k)) →
+      run2 (sandpileRule2 cfg) R C 1 true k t g () = (closedRun R C k g, ())
+  | 0, _, _, _ => rfl
+  | k + 1, t, g, hng => by
+    simp only [run2, closedRun]
+    rw [Sandpile.specStep_eq cfg hK g R C t]
+    simp only
+    rw [Sandpile.newGrid_closed cfg hcl R C hrows hcols g t (fun gr hm h => hng gr hm (by omega)),
+      ← closedStep_eq,
+      run2_sandpile_closed cfg hK R C hrows hcols hcl k (t + 1) _ (fun gr hm h => hng gr hm (by omega))]
+
+/-- Along a closed run no grid has more grains than the start grid. -/
+theorem closedRun_total_le (R C : Nat) :
+    ∀ (k : Nat) (g : Grid Int), Rect g R C → RimZero R C g → ∀ g' ∈ closedRun R C k g, total g' ≤ total g
+  | 0, _, _, _, _, h => by simp [closedRun] at h
+  | k + 1, g, hg, h0, g', h => by
+    obtain ⟨h1, h2, h3⟩ := closedStep_invariant R C g hg h0
+    simp only [closedRun, List.mem_cons] at h
+    rcases h with rfl | h
+    · exact h3
+    · exact Int.le_trans (closedRun_total_le R C k _ h1 h2 g' h) h3
+
+/-- **The total never increases with the closed boundary**: the totals of the start grid and of the
+    successive grids form a non-increasing sequence. -/
+theorem closedRun_nonincreasing (R C : Nat) :
+    ∀ (k : Nat) (g : Grid Int), Rect g R C → RimZero R C g →
+      ((g :: closedRun R C k g).map total).Pairwise (· ≥ ·)
+  | 0, _, _, _ => by simp [closedRun]
+  | k + 1, g, hg, h0 => by
+    obtain ⟨h1, h2, _⟩ := closedStep_invariant R C g hg h0
+    rw [List.map_cons, List.pairwise_cons]
+    constructor
+    · intro b hb
+      obtain ⟨g', hg', rfl⟩ := List.mem_map.1 hb
+      exact closedRun_total_le R C (k + 1) g hg h0 g' hg'
+    · exact closedRun_nonincreasing R C k _ h1 h2
+
+/-- `evolve2d` with the closed sandpile (boundary cells of the initial grid 0, no grain scheduled for the
+    steps taken): the history followed by the iterated closed steps, whose totals never increase. -/
+theorem sandpile_evolve_closed (cfg : SandpileCfg) (hK : cfg.K = 4) (R C : Nat) (hrows : cfg.rows = R)
+    (hcols : cfg.cols = C) (hcl : cfg.closed = true)
+    (hist : List (Grid Int)) (init : Grid Int) (hlast : hist.getLast? = some init) (T : Nat) (hT : 1 ≤ T)
+    (hg : Rect init R C) (hR : 1 ≤ R) (hC : 1 ≤ C) (h0 : RimZero R C init)
+    (hng : ∀ gr ∈ cfg.grains, ¬ (1 ≤ gr.2 ∧ gr.2 < T)) :
+    evolve2dFixed hist T (sandpileRule2 cfg) 1 .vonNeumann .plain ()
+        = .ok (hist ++ closedRun R C (T - 1) init, ()) ∧
+      ((init :: closedRun R C (T - 1) init).map total).Pairwise (· ≥ ·) := by
+  refine ⟨?_, closedRun_nonincreasing R C (T - 1) init hg h0⟩
+  rw [C02.evolve2dFixed_plain_eq_spec hist init hlast T hT (sandpileRule2 cfg) R C 1 .vonNeumann (by decide)
+    hg hR hC hR hC ()]
+  rw [show decide (NbType.vonNeumann = NbType.vonNeumann) = true by decide,
+    run2_sandpile_closed cfg hK R C hrows hcols hcl (T - 1) 1 init (fun gr hm h => hng gr hm (by omega))]
+
+/-! ## Non-vacuity: degenerate shapes, both boundary modes, a scheduled grain -/
+
+/-- `1 × 3` torus: the cell above and below a cell is the cell itself, counted twice. -/
+example : btwStep 1 3 [[4, 0, 5]] = [[3, 2, 4]] := by decide +kernel
+example : (Cpl.step2 .plain (sandpileRule2 { rows := 1, cols := 3, closed := false }) 1 true [[4, 0, 5]] 1
+    Caches2.empty ()).1 = [[3, 2, 4]] := by decide +kernel
+/-- `1 × 1` torus: a toppling cell receives its own four grains back. -/
+example : btwStep 1 1 [[7]] = [[7]] := by decide +kernel
+/-- `2 × 2` torus: the two vertical (horizontal) neighbours are the same cell. -/
+example : btwStep 2 2 [[4, 0], [0, 0]] = [[0, 2], [2, 0]] := by decide +kernel
+/-- closed 4×4: the toppling interior cell loses grains over the rim. -/
+example : (Cpl.step2 .plain (sandpileRule2 { rows := 4, cols := 4 }) 1 true
+    [[0,0,0,0],[0,4,1,0],[0,0,0,0],[0,0,0,0]] 1 Caches2.empty ()).1
+    = [[0,0,0,0],[0,0,2,0],[0,1,0,0],[0,0,0,0]] := by decide +kernel
+/-- a grain scheduled for step 3 on a stable closed grid. -/
+example : (Cpl.step2 .plain (sandpileRule2 { rows := 4, cols := 4, grains := [((1, 2), 3)] }) 1 true
+    [[0,0,0,0],[0,3,1,0],[0,2,0,0],[0,0,0,0]] 3 Caches2.empty ()).1
+    = [[0,0,0,0],[0,3,2,0],[0,2,0,0],[0,0,0,0]] := by decide +kernel
+/-- The grain overrides the cell's own toppling: a scheduled cell holding 5 is just raised by one while
+    its neighbours still gain from it (as in the Python code) — hence "stable" in `add_grain_stable`. -/
+example : (Cpl.step2 .plain (sandpileRule2 { rows := 3, cols := 3, closed := false, grains := [((1, 1), 1)] })
+    1 true [[0,0,0],[0,5,0],[0,0,0]] 1 Caches2.empty ()).1 = [[0,1,0],[1,6,1],[0,1,0]] := by decide +kernel
+
+/-- closed 5×5, two steps through `evolve2d`: totals 9, 6, 6 (three grains topple onto the rim and are lost). -/
+example : (match evolve2dFixed [[[0,0,0,0,0],[0,4,4,0,0],[0,0,1,0,0],[0,0,0,0,0],[0,0,0,0,0]]] 3
+      (sandpileRule2 { rows := 5, cols := 5 }) 1 .vonNeumann .plain () with
+    | .ok (gs, _) => gs.map total
+    | .error _ => []) = [9, 6, 6] := by decide +kernel
+
 end Cpl.C14
